@@ -38,6 +38,9 @@ def main(argv):
             return 2
         repo = Repo()
         ck = Checker(pid, repo, tier)
+        if getattr(mod, "PRELOAD_C", None):
+            from . import cast
+            cast.preload(repo, mod.PRELOAD_C)
         mod.run(ck)
         return ck.finish(mod.LEVEL_TEXT, mod.ASSUMPTIONS)
     except AnalysisError as e:
